@@ -8,7 +8,7 @@ import tempfile
 import numpy
 
 from .. import fixtures, monitor
-from ..core import digest
+from ..core import digest, scratch_dir
 from . import c01, c15
 
 META = {
@@ -325,7 +325,7 @@ def ex_load(ctx, ev, statements, lat_case, seed=0):
     ev = [tuple(e) for e in ev]
     reg, model, origins = c01.build_region(lat_case)
     src = mk(ev, catalog_id=1)
-    tmp = tempfile.mkdtemp(prefix="c04-", dir=os.environ.get("VERIF_TMP", "/var/tmp"))
+    tmp = scratch_dir("c04-")
     path = os.path.join(tmp, "cat.csv")
     rc = {"exec": "load", "args": {"ev": ev, "statements": statements, "lat_case": lat_case, "seed": seed}}
     ctx.current_case = rc
